@@ -596,13 +596,30 @@ func main() {
 		now0 := fasttime.UnixMilliseconds()
 		var ml protoMetricsV1.MetricList
 		var gs []gmetric
+		midnightBatch := r.Chance(15)
+		if midnightBatch {
+			behind = 0 // no write window: the rows may be up to a day old
+		}
 		for i := 0; i < n; i++ {
 			g := genMetric(r, false)
 			g.Enriched = nil
 			g.Name = fmt.Sprintf("m%d", i) // the row id
 			// timestamps: same family, neighbouring families, day/month boundaries, far outside the window
 			base := now0
-			switch r.Intn(6) {
+			pick := r.Intn(7)
+			if midnightBatch {
+				pick = 6 // every row of the batch on either side of the last midnight: only two families, of two segments
+			}
+			switch pick {
+			case 6:
+				// on either side of the last midnight (UTC = local here): the first hour of the day and the last hour of
+				// the day before are families of two segments
+				day := base / 86400000 * 86400000
+				if r.Bool() {
+					g.TS = day + int64(r.Range(1, 3500))*1000
+				} else {
+					g.TS = day - int64(r.Range(1, 3500))*1000
+				}
 			case 0:
 				g.TS = base - int64(r.Intn(50))*1000
 			case 1:
